@@ -230,15 +230,70 @@ def receiver_run(stream_chunks, nmsgs, nthreads, schedule, share):
     got = {i: [] for i in range(nthreads)}
 
     def worker(i, k):
-        for _ in range(k):
+        for j in range(k):
             try:
-                got[i].append(ws.recv())
+                # the three spellings of "receive one message": recv(), next(ws), iteration
+                got[i].append(ws.recv() if (i + j) % 3 == 0 else (ws.next() if (i + j) % 3 == 1 else next(iter(ws))))
             except Exception as e:  # noqa
                 got[i].append("X:" + common.canon_exc(e))
     for i in range(nthreads):
         b.spawn(i, (lambda i=i: worker(i, share[i])))
     eff = b.run(schedule)
     return got, eff, bytes(sock.sent), list(ws.readlock.log)
+
+
+def frame_receiver_run(stream_chunks, nframes, nthreads, schedule, share):
+    """workers call recv_frame() directly (no read lock there: only the frame buffer's own lock protects the parse state)."""
+    import websocket
+    b = Baton()
+    ws = websocket.WebSocket()
+    sock = simnet.SimSocket(stream_chunks)
+    ws.sock = BatonSocket(sock, b)
+    ws.connected = True
+    ws.frame_buffer.lock = SimLock(b, "framelock")
+    got = {i: [] for i in range(nthreads)}
+
+    def worker(i, k):
+        for _ in range(k):
+            try:
+                f = ws.recv_frame()
+                got[i].append((f.opcode, f.fin, bytes(f.data)))
+            except Exception as e:  # noqa
+                got[i].append("X:" + common.canon_exc(e))
+    for i in range(nthreads):
+        b.spawn(i, (lambda i=i: worker(i, share[i])))
+    eff = b.run(schedule)
+    return got, eff
+
+
+def run_frame_receivers(ctx):
+    rnd = ctx.rng("frame-receivers")
+    n = 900 if ctx.thorough() else 160
+    for it in range(n):
+        nthreads = rnd.randint(2, 3)
+        nfr = rnd.randint(nthreads, 5)
+        frames = [F(rnd.choice([1, 2]), bytes([0x61 + m]) * rnd.choice([0, 1, 5, 130]), mask=rnd.choice([None, b"\x01\x02\x03\x04"]))
+                  for m in range(nfr)]
+        stream = b"".join(f.enc() for f in frames)
+        chunks = [("chunk", c) for c in rx.partitions(stream, rnd, 1)[-1]]
+        share = [1] * nthreads
+        for _ in range(nfr - nthreads):
+            share[rnd.randrange(nthreads)] += 1
+        if it % 2:
+            sched = [rnd.randrange(nthreads) for _ in range(rnd.randint(0, 80))]
+        else:
+            a, b_ = rnd.sample(range(nthreads), 2)
+            sched = [a] * rnd.randint(0, 30) + [b_] * 300
+        got, eff = frame_receiver_run(chunks, nfr, nthreads, sched, share)
+        switches = sum(1 for x, y in zip(eff, eff[1:]) if x != y)
+        ctx.case(key=("rxf", it, tuple(eff[:40])), nontrivial=switches > 1, cls=f"frame-receivers:threads={nthreads}:frames={nfr}")
+        want = sorted(repr((f.op, 1, f.data)) for f in frames)
+        have = sorted(repr(x) for v in got.values() for x in v)
+        if want != have:
+            ctx.violate("each-message-intact-to-exactly-one-receiver", "frame-torn-between-recv_frame-callers",
+                        {"op": "threads-recv_frame", "frames": [f.desc() for f in frames], "threads": nthreads, "share": share, "schedule": eff[:120]},
+                        [f.desc() for f in frames], [x if isinstance(x, str) else (x[0], x[1], len(x[2])) for v in got.values() for x in v],
+                        size=len(eff) + nfr)
 
 
 def run_receivers(ctx):
@@ -414,6 +469,7 @@ def run(ctx):
     run_eagain(ctx)
     run_senders(ctx)
     run_receivers(ctx)
+    run_frame_receivers(ctx)
     run_mixed(ctx)
 
 
